@@ -423,17 +423,23 @@ def relocFinish (acc : RelocAcc) (re : Reloc) (value : BitVec 64) : Except Err R
   | some buf' => .ok { acc with secs := setBuf acc.secs re.srcSec buf' }
   | none => .error .invalidRelocEntry
 
+/-- `if (!at_entry->has_assigned_slot()) at_entry->_slot = address_table_entry_size++;` : (entries, next free slot, slot of entry `ei`) -/
+def assignSlot (acc : RelocAcc) (ei : Nat) : List AddrEntry × Nat × Nat :=
+  match acc.addrTab[ei]? with
+  | some { addr := a, slot := none } => (acc.addrTab.set ei { addr := a, slot := some acc.nSlots }, acc.nSlots + 1, acc.nSlots)
+  | some { addr := _, slot := some k } => (acc.addrTab, acc.nSlots, k)
+  | none => (acc.addrTab, acc.nSlots, 0)
+
 /-- `kX64AddressEntry` when a rel32 cannot reach the target: assign / reuse the slot, rewrite `[REX] E8|E9` to `FF /2|/4`,
 store the target in the slot; returns the modified buffers and the rel32 that reaches the slot -/
 def relocTable (s : State) (acc : RelocAcc) (re : Reloc) (src : Section) : Except Err (RelocAcc × BitVec 64) :=
   let valueOffset := re.srcOff + re.fmt.valueOffset
   match acc.addrTab.findIdx? (fun e => e.addr == re.payload), s.addrTabSec with
   | some ei, some ats =>
-    let (tab, nSlots, slot) : List AddrEntry × Nat × Nat :=
-      match acc.addrTab[ei]? with
-      | some { addr := a, slot := none } => (acc.addrTab.set ei { addr := a, slot := some acc.nSlots }, acc.nSlots + 1, acc.nSlots)
-      | some { addr := _, slot := some k } => (acc.addrTab, acc.nSlots, k)
-      | none => (acc.addrTab, acc.nSlots, 0)
+    let trip := assignSlot acc ei
+    let tab := trip.1
+    let nSlots := trip.2.1
+    let slot := trip.2.2
     let atIndex := slot * s.arch.regSize
     let addrSrc := src.offset + BitVec.ofNat 64 re.srcOff + BitVec.ofNat 64 re.regionSize
     let addrDst := secOffset acc.secs ats + BitVec.ofNat 64 atIndex
